@@ -1029,6 +1029,22 @@ def sites_module_siblings(rp, rng):
             lab = "module-siblings@%s,%s" % (da.name, db.name)
             q.trace = rp.trace + [lab]
             out.append((lab, q))
+            if isinstance(da, LetTable) and isinstance(db, LetTable):
+                # nested: `a` in the outer module, `b` in a child module; b's reference to a stays relative and is found in the
+                # PARENT module (modules.md: "tries to resolve relative to the parent module", repeated up to the root)
+                q2 = rp.clone()
+                da2, db2 = q2.decls[i], q2.decls[j]
+                da2.style = db2.style = "let"
+                m, m2 = q2.new("m"), q2.new("m")
+                rest2 = [d for k, d in enumerate(q2.decls) if k not in (i, j)]
+                q2.decls = rest2[:i] + [Module(m, [da2, Module(m2, [db2])])] + rest2[i:]
+                _rename_refs(q2, db2.name, m + "." + m2 + "." + db2.name)
+                keep_head2 = db2.head
+                _rename_refs(q2, da2.name, m + "." + da2.name)
+                db2.head = keep_head2
+                lab2 = "module-siblings-parent@%s,%s" % (da2.name, db2.name)
+                q2.trace = rp.trace + [lab2]
+                out.append((lab2, q2))
     return out
 
 
